@@ -30,18 +30,11 @@ def namesOf (s : Str) : List Str := names (s.length + 1) s
 /-- the entries an update's key reaches -/
 def hits (pom : Pom) (u : Upd) : List Dep := pom.deps.filter fun d => d.key = u.key
 
-def propDefined (pom : Pom) (d : Dep) (n : Str) : Bool :=
-  let po := if hasPrefix sProfile d.origin then cutSuffix d.origin ('@' :: sManagement) else []
-  pom.props.any fun p => p.name = n && (p.origin = [] || p.origin = po)
-
-/-- known classes, most specific first; `none` = the case is inside the `_partial` hypothesis -/
+/-- known classes, most specific first; `none` = the case is inside the requirement-level statement.
+(The classes key-whitespace, undefined-property and props-repeated-name were repaired by fixes 5743d35a,
+f5d17448 and d4dd80ce.) -/
 def feature (pom : Pom) (us : List Upd) : Option String :=
-  if us.any (fun u => (hits pom u).any (·.wsKey)) then some "C13/pom-key-whitespace"
-  else if us.any (fun u => (hits pom u).length ≥ 2) then some "C13/pom-origin-ignored"
-  else if us.any (fun u => (hits pom u).any fun d => !(namesOf d.ver).all (propDefined pom d)) then
-    some "C13/pom-undefined-property"
-  else if us.any (fun u => (hits pom u).any fun d => decide ¬ (namesOf d.ver).Nodup) then
-    some "C13/pom-props-repeated-name"
+  if us.any (fun u => (hits pom u).length ≥ 2) then some "C13/pom-origin-ignored"
   else if us.any (fun u => (hits pom u).any fun d =>
       (namesOf d.ver).any fun n => pom.deps.any fun d' => d' ≠ d && (namesOf d'.ver).contains n) then
     some "C13/pom-shared-property"
